@@ -333,12 +333,18 @@ func (en *DefaultEngine) runFirst(ctx context.Context) (bool, error) {
 		return false, nil
 	}
 	logg.DebugCtxf(ctx, "start pre-VM check")
+	depth := en.st.Depth()
 	en.ca.Push()
 	rs := resource.NewMenuResource()
 	rs.AddLocalFunc("_first", en.first)
 	en.st.Down("_first")
-	defer en.ca.Pop()
-	defer en.st.Up()
+	defer func() {
+		// a failing function makes the pre-VM descend to the catch node; leave every level entered here
+		for en.st.Depth() > depth {
+			en.st.Up()
+			en.ca.Pop()
+		}
+	}()
 	defer en.st.ResetFlag(state.FLAG_TERMINATE)
 	defer en.st.ResetFlag(state.FLAG_DIRTY)
 	pvm := vm.NewVm(en.st, rs, en.ca, nil)
